@@ -37,6 +37,10 @@ type tqCase struct {
 	Calls      []string   `json:"calls"` // per batch request: 200 | 429 | 429:<secs> | 500 | 404
 	Unknown    []bool     `json:"unknown"` // per batch request: add an object nobody asked about
 	Workers    int        `json:"workers"`
+	// schedule perturbation: the watcher's consumer sleeps between reads, and further (duplicate) adds
+	// of an object are issued right after its first delivery has been observed
+	SlowWatcherMs int   `json:"slow_watcher_ms,omitempty"`
+	LateAdds      []int `json:"late_adds,omitempty"`
 }
 
 func (tc tqCase) encode() string {
@@ -65,6 +69,8 @@ type tqBatchReq struct {
 }
 type tqObs struct {
 	AddsReturned int             `json:"adds_returned"`
+	LateAdded    int             `json:"late_added"`
+	Inconclusive bool            `json:"inconclusive,omitempty"`
 	AddBlocked   bool            `json:"add_blocked"`
 	WaitReturned bool            `json:"wait_returned"`
 	Delivered    []string        `json:"delivered"`
@@ -304,11 +310,30 @@ func runTqCase(tc tqCase, workdir string) *tqObs {
 	watch := q.Watch()
 	var dmu sync.Mutex
 	watchDone := make(chan struct{})
+	lateDone := make(chan struct{})
+	lateAdded := 0
 	go func() {
+		fired := false
 		for t := range watch {
 			dmu.Lock()
 			obs.Delivered = append(obs.Delivered, t.Oid)
 			dmu.Unlock()
+			if !fired && len(tc.LateAdds) > 0 && t.Oid == tqOid(tc.LateAdds[0]) {
+				fired = true
+				go func() {
+					time.Sleep(time.Duration(1+tc.SlowWatcherMs/3) * time.Millisecond)
+					for _, i := range tc.LateAdds {
+						q.Add(fmt.Sprintf("name-%d", i), "", tqOid(i), 3, false, nil)
+						dmu.Lock()
+						lateAdded++
+						dmu.Unlock()
+					}
+					close(lateDone)
+				}()
+			}
+			if tc.SlowWatcherMs > 0 {
+				time.Sleep(time.Duration(tc.SlowWatcherMs) * time.Millisecond)
+			}
 		}
 		close(watchDone)
 	}()
@@ -361,6 +386,17 @@ addLoop:
 			break addLoop
 		}
 	}
+	if !obs.AddBlocked && len(tc.LateAdds) > 0 {
+		select { // the late adds must have returned before Wait() may be called (Add after Wait is API misuse)
+		case <-lateDone:
+		case <-time.After(6 * time.Second):
+			obs.Inconclusive = true
+			return obs
+		}
+	}
+	dmu.Lock()
+	obs.LateAdded = lateAdded
+	dmu.Unlock()
 	if !obs.AddBlocked {
 		waited := make(chan struct{})
 		go func() { q.Wait(); close(waited) }()
